@@ -370,12 +370,15 @@ class SwitchRouterNode(RouterNode):
         elif self.router.operand == "@contact.groups":
             # TODO: What about multiple groups?
             # TODO: groups in cases should be implemented differently.
+            # The row names the group of the first case; a split that has no
+            # case (yet) names none.
+            first_case = self.router.cases[0] if self.router.cases else None
             super().initiate_row_models(
                 current_row_id,
                 parent_edge,
                 type="split_by_group",
-                mainarg_groups=[self.router.cases[0].arguments[1]],
-                obj_id=self.router.cases[0].arguments[0]
+                mainarg_groups=[first_case.arguments[1]] if first_case else [],
+                obj_id=(first_case.arguments[0] if first_case else None)
                 or "",  # obj_id is not yet a list.
             )
         else:
